@@ -96,6 +96,12 @@ def gen(rng, tier):
     # datagrams of the largest sizes an address family carries, through a real socket and consumeUdp's receive buffer
     for host, size in [("127.0.0.1", 65507), ("[::1]", 65507), ("[::1]", 65508), ("[::1]", 65527), ("127.0.0.1", rng.randrange(1, 3000))]:
         cases.append({"kind": "udp_live", "host": host, "body": sized_datagram(rng, size).hex()})
+    # a burst of datagrams while the pipeline stalls inside the first one (back-pressure): the later datagrams arrive while
+    # the first is still being scanned in 4 KiB steps; every datagram is still its own stream, in arrival order
+    for sizes in ([6000, 300, 9000], [9000, 7000, 8000, 5000], [20000, 100, 100, 100, 12000], [4097, 4097, 4097],
+                  [rng.randrange(4200, 16000) for _ in range(rng.choice([3, 4, 5]))]):
+        cases.append({"kind": "udp_burst", "stall_ms": 120,
+                      "bodies": [sized_datagram(rng, sz, tag=b"d%d" % j).hex() for j, sz in enumerate(sizes)]})
     for L in (10, 4094, 4095, 4096, 4097, 4098, 8191, 8192, 9000):
         for term in (b"\n", b"\r\n", b""):
             cases.append({"kind": "amqp", "body": (b"m" * L + term + b"second 1 2\n" + rng.choice([b"", b"tail"])).hex()})
@@ -108,11 +114,11 @@ ST = {"ok": 0, "err": 1, "toolong": 2, "noprogress": 3}
 RR = {"data": "RData", "dataeof": "RDataEof", "dataerr": "RDataErr"}
 
 
-def sized_datagram(rng, size):
+def sized_datagram(rng, size, tag=b"udp"):
     out = b""
     i = 0
     while len(out) < size:
-        out += b"verif.udp.%06d %d 1500000000\n" % (i, rng.randrange(1000))
+        out += b"verif.%s.%06d %d 1500000000\n" % (tag, i, rng.randrange(1000))
         i += 1
     out = out[:size]
     if rng.random() < .5 and size > 40:      # sometimes a newline as the very last byte
@@ -139,6 +145,8 @@ def to_coq(case, obs):
         return "KUdp %s %s" % (cbytes(bytes.fromhex(case["body"])), lines)
     if case["kind"] == "udp":
         return "KUdp %s %s" % (cbytes(bytes.fromhex(case["body"])), lines)
+    if case["kind"] == "udp_burst":
+        return "KUdpBurst %s %s" % (clist([cbytes(bytes.fromhex(b)) for b in case["bodies"]], "bytes"), lines)
     return "KAmqp %s %s" % (cbytes(bytes.fromhex(case["body"])), lines)
 
 
@@ -156,6 +164,8 @@ def sample(case, obs):
     if case["kind"] == "plain":
         return {"reads": [(s["t"], bytes.fromhex(s.get("b", "")).decode("latin-1")[:30]) for s in case["script"][:6]],
                 "lines": [bytes.fromhex(l).decode("latin-1")[:30] for l in obs["lines"][:6]], "status": obs["status"]}
+    if case["kind"] == "udp_burst":
+        return {"kind": "udp_burst", "datagram_sizes": [len(b) // 2 for b in case["bodies"]], "lines": len(obs["lines"])}
     return {"kind": case["kind"], "body_len": len(case["body"]) // 2, "lines": [len(l) // 2 for l in obs["lines"][:6]]}
 
 
